@@ -113,7 +113,15 @@ CHECKS["C20"] = ("model_checking", "5/C20",
          "sequences on recycled objects, checksalt and the compat gensalt aliases are replayed by an old-binary client (released layout hard-coded, every "
          "symbol bound with dlvsym at GLIBC_2.2.5 / XCRYPT_2.0 / default) and judged by the same trace specifications.",
          "TLC judgement of dumped ABI facts + trace validation through every released version node", "the private build uses the repository's generated version script")
-for p in ["C08"]:
+CHECKS["C08"] = ("model_checking", "5/C08",
+         "Threads.tla: TLC explores every interleaving of 3 threads x 2 calls of the re-entrant interfaces, split into write and read-back steps over their "
+         "footprints, for NoRace and AsIfAlone; the witness configuration with crypt()/crypt_gensalt() must exhibit the documented race. The footprints are "
+         "MEASURED on the fresh build: inventory of writable static symbols, write-set of every API call of every method, and every re-entrant call executed "
+         "with the library's writable segments mapped read-only (a transient write faults). Real schedules: 2..16 threads with barriers, every result judged "
+         "against the alone-run by the learned function; ThreadSanitizer build of the same driver.",
+         "TLC model checking of interleavings with footprints measured on the code (write-protected execution) + judged stress traces + TSan",
+         "real schedules are sampled; exhaustiveness is on the model")
+for p in []:
     NA.setdefault(p, "check under construction in this round (see DESIGN.md section 9); not claimed until its machinery is committed")
 
 
